@@ -35,6 +35,12 @@ T_CEnd == IsEvent("cend") /\
    /\ (\A id \in unknownIds : (id = MaxId \/ \E x \in okd : x - id >= W)) = TRUE
    /\ UNCHANGED <<rwvars, cvars>>
 
+\* end of a long ascending run over 0..n-1: every id was offered by every thread, the window always covered
+\* the ids in play, so each id must have been accepted exactly once (at-most-once is checked per event)
+T_CEndLong == IsEvent("cend_long") /\
+   /\ (\A id \in 0..(Rec[l].n - 1) : id \in okd) = TRUE
+   /\ UNCHANGED <<rwvars, cvars>>
+
 T_CNext == IsEvent("cnext") /\ LET r == Rec[l] IN
    /\ r.id \notin issued                                         \* never issued twice
    /\ lastOf[r.th] = None \/ r.id > lastOf[r.th]
@@ -47,6 +53,6 @@ T_CStale == IsEvent("cstale") /\ LET r == Rec[l] IN
    /\ floorOf' = [floorOf EXCEPT ![r.th] = IF r.m > @ THEN r.m ELSE @]
    /\ UNCHANGED <<rwvars, okd, existsIds, unknownIds, issued, lastOf>>
 
-TNext == T_Reset \/ T_Recv \/ T_CRecv \/ T_CEnd \/ T_CNext \/ T_CStale
+TNext == T_Reset \/ T_Recv \/ T_CRecv \/ T_CEnd \/ T_CEndLong \/ T_CNext \/ T_CStale
 TSpec == TInit /\ [][TNext]_tvars
 =============================================================================
